@@ -12,3 +12,4 @@ import WowVerif.Props.C16
 #print axioms Wv.Blp.header_roundtrip
 #print axioms Wv.Blp.header_size
 #print axioms Wv.Blp.header_parse_normal
+#print axioms Wv.Blp.header_write_injective
